@@ -121,7 +121,7 @@ def analyse(ctx, entries):
         for e in fall:
             by_desc.setdefault(describe(ctx, q, q.E[e][2]), []).append(e)
         for d, edges in by_desc.items():
-            rec = {'entry': name, 'site': d, 'q': q, 'edges': edges, 'inspected': False, 'escapes': [], 'benign': False,
+            rec = {'entry': name, 'site': d, 'q': q, 'edges': edges, 'inspected': False, 'bool_only': True, 'escapes': [], 'benign': False,
                    'benign_bad': [], 'panic_on_err': [], 'dropped': [], 'spans': sorted({q.E[e][2]['site'][2] for e in edges}),
                    'surfaces': [], 'escapes_without_mkdir': [], 'cls': cls_of(q.E[edges[0]][2]) if q.E[edges[0]][2]['k'] == 'ext' else q.E[edges[0]][2]['k']}
             recs.append(rec)
@@ -131,6 +131,11 @@ def analyse(ctx, entries):
                 ErrE = refines(q, rv, 'Err')
                 OkE = refines(q, rv, 'Ok')
                 ben = benign_edges(ctx, q, ev)
+                # "used as a boolean": the only inspection of the result is is_ok()/is_err()
+                tested = q.edges(lambda x: x['k'] == 'tested' and x.get('val') == rv)
+                after_err = {q.E[x][1] for x in ErrE}
+                if not tested or not all(q.E[x][0] in after_err for x in tested) or len(tested) < len(ErrE):
+                    rec['bool_only'] = False
                 if ErrE or OkE:
                     rec['inspected'] = True
                 else:
